@@ -554,6 +554,44 @@ theorem generated_parameters_suffice (cv : CustomValidators) (vt : VTable) (sch 
     refine (collectM_mem hq l).mpr ⟨a, ha, ls, ?_, hl⟩
     simp [attrParamLabels, hk, hls]
 
+/-- **Nothing superfluous is generated**: every label of `generate_parameters` stands at a parameter
+    position of some item of the model. -/
+theorem generated_parameters_all_referenced (sch : Schema) (m : Model) (P : List String)
+    (hP : generateParameters sch m = .ok P) (l : String) (hl : l ∈ P) :
+    ∃ it ∈ allItems m, ∃ a ∈ (specOf sch it.spec).attrs, a.kind = .param ∧
+      ∃ ls, it.labels a = .ok ls ∧ l ∈ ls := by
+  unfold generateParameters parameterLabels at hP
+  obtain ⟨it, hit, q, hq, hlq⟩ := (collectM_mem hP l).mp hl
+  unfold itemParamLabels at hq
+  obtain ⟨a, ha, ls, hls, hlls⟩ := (collectM_mem hq l).mp hlq
+  refine ⟨it, hit, a, ha, ?_⟩
+  unfold attrParamLabels at hls
+  cases hk : a.kind with
+  | param =>
+    simp only [hk] at hls
+    exact ⟨rfl, ls, hls, hlls⟩
+  | item c =>
+    simp only [hk] at hls
+    cases hls
+    cases hlls
+  | plain =>
+    simp only [hk] at hls
+    cases hls
+    cases hlls
+
+/-- **The generated parameter set is tight**: leaving out any one of the generated labels makes
+    validation report a `ParameterIssue` for exactly that label (so `generated_parameters_suffice`
+    is not met by generating too much, and "every single parameter removed in turn" is reported). -/
+theorem generated_parameters_tight (cv : CustomValidators) (vt : VTable) (sch : Schema) (m : Model)
+    (P : List String) (hP : generateParameters sch m = .ok P) (l : String) (hl : l ∈ P)
+    (iss : List Issue) (h : getIssues cv vt sch m (some (P.filter (· ≠ l))) = .ok iss) :
+    Issue.missingParam l ∈ iss := by
+  obtain ⟨it, hit, a, ha, hk, ls, hls, hlls⟩ := generated_parameters_all_referenced sch m P hP l hl
+  refine complete_parameters cv vt sch m _ iss h l ⟨it, hit, a, ha, hk, ls, hls, hlls, ?_⟩
+  intro hmem
+  have := (List.mem_filter.mp hmem).2
+  simp at this
+
 /-! ### the regenerated tables -/
 
 /-- what the modeller claims the validator functions of the builtin classes check — the
